@@ -132,6 +132,29 @@ func (g *xgen) okAssertionSpec(i int) *AssertionSpec {
 	if g.r.Intn(3) == 0 {
 		a.NameID = sp(g.value())
 	}
+	// conditions the SP only reports (C06): several restrictions / audiences, OneTimeUse, ProxyRestriction
+	switch g.r.Intn(8) {
+	case 0:
+		a.Audiences = [][]string{{audURI, "https://other.example.com/aud"}}
+	case 1:
+		a.Audiences = [][]string{{"https://other.example.com/aud", audURI}, {audURI}}
+	case 2:
+		a.Audiences = [][]string{{audURI}, {"https://other.example.com/aud"}}
+	case 3:
+		a.Audiences = nil
+	case 4:
+		a.Audiences = [][]string{{audURI + "/"}, {}}
+	}
+	a.OneTimeUse = g.r.Intn(4) == 0
+	if g.r.Intn(4) == 0 {
+		a.Proxy = &struct {
+			Count     string
+			Audiences []string
+		}{Count: pick(g.r, "0", "1", "5", "\x00")}
+		for k := g.r.Intn(3); k > 0; k-- {
+			a.Proxy.Audiences = append(a.Proxy.Audiences, pick(g.r, audURI, "https://proxy.example.com/aud", "urn:x"))
+		}
+	}
 	a.UseCDATA = g.r.Intn(5) == 0
 	a.XsiTypes = g.r.Intn(3) == 0
 	a.CommentInValues = g.r.Intn(5) == 0
